@@ -83,7 +83,7 @@ Proof. vm_compute. reflexivity. Qed.
 
 Example fx_flat_hyps :
   cmd_ok len fx_c /\ refs_ok fx_c = true /\ flat_cond fx_c = true /\ h_build fx_c = Some fx_b
-  /\ flat_tree_ok len fx_b /\ usage_ok (hc_height fx_c + 2) fx_c /\ flat_distinct fx_b.
+  /\ flat_tree_ok len fx_b /\ usage_ok tree_fuel fx_c /\ flat_distinct fx_b.
 Proof.
   split; [apply cmd_okb_sound; vm_compute; reflexivity|]. split; [vm_compute; reflexivity|]. split; [vm_compute; reflexivity|].
   split; [exact fx_build|]. split; [apply (flat_tree_okb_sound len 4); vm_compute; reflexivity|].
